@@ -100,33 +100,68 @@ def lean_strs(xs):
     return "[" + ", ".join(lean_str(x) for x in xs) + "]"
 
 
+def _eval_names(node, table):
+    """value of a constant expression denoting a sequence of strings: a tuple/list/set literal of string constants, a
+    name (or attribute) bound to one, `tuple(...)`/`frozenset(...)` of one, or a concatenation of such; None otherwise"""
+    if isinstance(node, (ast.Tuple, ast.List, ast.Set)):
+        if node.elts and all(isinstance(e, ast.Constant) and isinstance(e.value, str) for e in node.elts):
+            return [e.value for e in node.elts]
+        parts = []
+        for e in node.elts:
+            if isinstance(e, ast.Starred):
+                v = _eval_names(e.value, table)
+                if v is None:
+                    return None
+                parts.extend(v)
+            elif isinstance(e, ast.Constant) and isinstance(e.value, str):
+                parts.append(e.value)
+            else:
+                return None
+        return parts or None
+    if isinstance(node, ast.Name):
+        return table.get(node.id)
+    if isinstance(node, ast.Attribute):
+        return table.get(node.attr)
+    if isinstance(node, ast.BinOp) and isinstance(node.op, (ast.Add, ast.BitOr)):
+        l, r = _eval_names(node.left, table), _eval_names(node.right, table)
+        return None if l is None or r is None else l + r
+    if isinstance(node, ast.Call) and isinstance(node.func, ast.Name) and node.func.id in ("tuple", "list", "frozenset", "set") \
+            and len(node.args) == 1:
+        return _eval_names(node.args[0], table)
+    return None
+
+
 def _const_table(tree):
-    """module-level and class-level `NAME = (<string constants>)` assignments: name -> list of strings"""
+    """module-level and class-level `NAME = <constant sequence of strings>` assignments: name -> list of strings
+    (iterated to a fixed point so that constants may be built from earlier ones)"""
     out = {}
-    for n in ast.walk(tree):
-        if isinstance(n, ast.Assign) and isinstance(n.value, (ast.Tuple, ast.List)) and n.value.elts and all(
-                isinstance(e, ast.Constant) and isinstance(e.value, str) for e in n.value.elts):
-            for t in n.targets:
-                if isinstance(t, ast.Name):
-                    out[t.id] = [e.value for e in n.value.elts]
+    for _ in range(4):
+        grew = False
+        for n in ast.walk(tree):
+            if isinstance(n, ast.Assign):
+                v = _eval_names(n.value, out)
+                if v is None:
+                    continue
+                for t in n.targets:
+                    if isinstance(t, ast.Name) and out.get(t.id) != v:
+                        out[t.id] = v
+                        grew = True
+        if not grew:
+            break
     return out
 
 
 def _membership_lists(tree, fn):
-    """string tuples a function tests membership in: inline `x in ("a", "b")` / `x not in (...)`, or through a
-    module-/class-level constant (`x in _NAMES`, `x in cls._NAMES`)"""
+    """string sequences a function tests membership in: inline `x in ("a", "b")` / `x not in (...)`, or through
+    module-/class-level constants (`x in _NAMES`, `x in cls._NAMES`, `x in _A + _B`)"""
     table = _const_table(tree)
     out = []
     for n in ast.walk(fn):
         if isinstance(n, ast.Compare) and any(isinstance(o, (ast.In, ast.NotIn)) for o in n.ops):
             for c in n.comparators:
-                if isinstance(c, (ast.Tuple, ast.List)) and c.elts and all(
-                        isinstance(e, ast.Constant) and isinstance(e.value, str) for e in c.elts):
-                    out.append([e.value for e in c.elts])
-                elif isinstance(c, ast.Name) and c.id in table:
-                    out.append(table[c.id])
-                elif isinstance(c, ast.Attribute) and c.attr in table:
-                    out.append(table[c.attr])
+                v = _eval_names(c, table)
+                if v:
+                    out.append(v)
     return out
 
 
